@@ -17,20 +17,20 @@ def check(repo, rep, tier):
     db, other = rd.split_builtins(em)
     rep.minimum('database builtins registered', len(db), 4)
     funcs = rd.closure_in_engine(em, db)
-    rd.rule_key_kinds(em, rep, 'C07.K1', funcs)
-    rd.rule_deref_before_inspection(em, rep, 'C07.D1', db)
-    rd.rule_total_dispatch(em, rep, 'C07.D2', funcs)
-    rq.rule_no_engine_exception(em, rep, 'C07.D3', db)
-    rq.rule_guarded_subscripts(em, rep, 'C07.D3b')
-    rd.rule_front_back(em, rep, 'C07.O1')
-    rd.rule_retractall_once(em, rep, 'C07.O2')
-    rd.rule_clear_resets(em, rep, 'C07.O3')
-    rd.rule_retractall_filters_by_match(em, rep, 'C07.O2b')
+    rep.run(rd.rule_key_kinds, em, rep, 'C07.K1', funcs)
+    rep.run(rd.rule_deref_before_inspection, em, rep, 'C07.D1', db)
+    rep.run(rd.rule_total_dispatch, em, rep, 'C07.D2', funcs)
+    rep.run(rq.rule_no_engine_exception, em, rep, 'C07.D3', db)
+    rep.run(rq.rule_guarded_subscripts, em, rep, 'C07.D3b')
+    rep.run(rd.rule_front_back, em, rep, 'C07.O1')
+    rep.run(rd.rule_retractall_once, em, rep, 'C07.O2')
+    rep.run(rd.rule_clear_resets, em, rep, 'C07.O3')
+    rep.run(rd.rule_retractall_filters_by_match, em, rep, 'C07.O2b')
     sm = rd.StoreModel(em)
-    rd.rule_no_read_yield_write(em, rep, 'C07.L2', sm)
-    rd.rule_remove_by_identity(em, rep, 'C07.L3', sm)
+    rep.run(rd.rule_no_read_yield_write, em, rep, 'C07.L2', sm)
+    rep.run(rd.rule_remove_by_identity, em, rep, 'C07.L3', sm)
     # each list element is an immutable, independent copy (C13)
-    fr = rs.rule_store_snapshot(em, rep, 'C07.S1')
-    rs.rule_fresh_per_use(em, rep, 'C07.S2', fr)
-    rx.rule_facts_immutable(em, rep, 'C07.S4')
-    rq.rule_facts_first(em, rep, 'C07.Q1')
+    fr = rep.run(rs.rule_store_snapshot, em, rep, 'C07.S1')
+    rep.run(rs.rule_fresh_per_use, em, rep, 'C07.S2', fr)
+    rep.run(rx.rule_facts_immutable, em, rep, 'C07.S4')
+    rep.run(rq.rule_facts_first, em, rep, 'C07.Q1')
